@@ -346,40 +346,66 @@ def inline_statement_calls(p: Program, f: Function, depth: int = 2) -> ast.AST:
 
 def inline_value_calls(p: Program, f: Function, depth: int = 2, keep=()) -> Function:
     """Copy of f in which `targets = helper(args)`, `targets = self.helper(args)` and `return helper(args)` are replaced by the
-    helper's body when the helper (same package, positional parameters only) has exactly one `return`, as its last statement
-    (possibly inside a trailing `with` block): parameters are substituted by the argument expressions, helper locals are
-    suffixed, and the returned expression is assigned to the targets (or returned).  Syntax-tree rules about one function's
-    bookkeeping then see through helper extraction; positions of inlined statements are those of the call."""
+    helper's body when the helper (same package, or a function nested in f) has exactly one `return`, as its last statement
+    (possibly inside a trailing `with` block).  The call is *specialised*: arguments are bound by position, keyword and
+    default; parameters are substituted by the argument expressions; helper locals are suffixed; `if` statements whose test
+    becomes a constant (`None is not None`, `False`, a function name `is not None`) are folded; a self-reassignment directly
+    after the first assignment (`x = a; x = g(x)`) is fused into one.  The returned expression is assigned to the targets (or
+    returned).  Syntax-tree rules about one function's bookkeeping then see through helper extraction and through helpers
+    shared between siblings; positions of inlined statements are those of the call."""
     import copy
 
     counter = [0]
+    nested = {n.name: n for n in ast.walk(f.node) if isinstance(n, ast.FunctionDef) and n is not f.node}
 
     def helper_of(call: ast.Call, module):
-        if call.keywords or any(isinstance(a, ast.Starred) for a in call.args):
+        if any(isinstance(a, ast.Starred) for a in call.args) or any(k.arg is None for k in call.keywords):
             return None, None
-        if isinstance(call.func, ast.Name):
+        skip = 0
+        node = None
+        if isinstance(call.func, ast.Name) and call.func.id in nested:
+            node, hmod, hname = nested[call.func.id], module, call.func.id
+        elif isinstance(call.func, ast.Name):
             callee = p.resolve_name(module, call.func.id)
-            skip = 0
+            if isinstance(callee, Function) and isinstance(callee.node, ast.FunctionDef) and callee is not f:
+                node, hmod, hname = callee.node, callee.module, callee.name
         elif isinstance(call.func, ast.Attribute) and isinstance(call.func.value, ast.Name) and call.func.value.id == "self" and f.cls:
             callee = f.cls.find_method(call.func.attr)
-            skip = 1
-        else:
+            if isinstance(callee, Function) and isinstance(callee.node, ast.FunctionDef) and not callee.is_property and callee is not f:
+                node, hmod, hname = callee.node, callee.module, callee.name
+                skip = 1
+        if node is None or hname in keep:
             return None, None
-        if not isinstance(callee, Function) or not isinstance(callee.node, ast.FunctionDef) or callee.is_property or callee is f \
-                or callee.name in keep:
+        a = node.args
+        if a.vararg or a.kwarg:
             return None, None
-        a = callee.node.args
-        if a.vararg or a.kwarg or a.kwonlyargs or len(callee.params) - skip != len(call.args):
+        formals = [x.arg for x in a.posonlyargs + a.args][skip:]
+        defaults = dict(zip(reversed([x.arg for x in a.posonlyargs + a.args]), reversed(a.defaults)))
+        for x, d in zip(a.kwonlyargs, a.kw_defaults):
+            formals.append(x.arg)
+            if d is not None:
+                defaults[x.arg] = d
+        if len(call.args) > len(formals):
             return None, None
-        body = [s for s in callee.node.body if not (isinstance(s, ast.Expr) and isinstance(s.value, ast.Constant)
-                                                     and isinstance(s.value.value, str))]
+        mapping = dict(zip(formals, call.args))
+        for k in call.keywords:
+            if k.arg not in formals or k.arg in mapping:
+                return None, None
+            mapping[k.arg] = k.value
+        for x in formals:
+            if x not in mapping:
+                if x not in defaults:
+                    return None, None
+                mapping[x] = defaults[x]
+        body = [s_ for s_ in node.body if not (isinstance(s_, ast.Expr) and isinstance(s_.value, ast.Constant)
+                                               and isinstance(s_.value.value, str))]
         # a trailing `with ...:` only scopes a context (error state, lock): its statements are the tail of the body
         while body and isinstance(body[-1], ast.With):
             body = body[:-1] + list(body[-1].body)
-        rets = [n for n in own_walk(callee.node) if isinstance(n, ast.Return)]
+        rets = [n for n in own_walk(node) if isinstance(n, ast.Return)]
         if len(rets) != 1 or not body or body[-1] is not rets[0] or rets[0].value is None:
             return None, None
-        return callee, (body, skip)
+        return hmod, (body, mapping)
 
     def subst(body, mapping, suffix, direct=None):
         direct = direct or {}
@@ -400,6 +426,73 @@ def inline_value_calls(p: Program, f: Function, depth: int = 2, keep=()) -> Func
                 return n
         return [R().visit(copy.deepcopy(st)) for st in body]
 
+    def const_test(e, module):
+        """True / False when the test is decided by the specialisation, else None"""
+        def nonnull(x):
+            if isinstance(x, ast.Constant):
+                return x.value is not None
+            if isinstance(x, (ast.Lambda, ast.Tuple, ast.List, ast.Dict)):
+                return True
+            if isinstance(x, ast.Name) and (x.id in nested or isinstance(p.resolve_name(module, x.id), Function)):
+                return True
+            if isinstance(x, ast.Attribute) and isinstance(x.value, ast.Name) and x.value.id in ("np", "numpy"):
+                return True
+            return None
+        if isinstance(e, ast.Constant) and isinstance(e.value, bool):
+            return e.value
+        if isinstance(e, ast.UnaryOp) and isinstance(e.op, ast.Not):
+            r = const_test(e.operand, module)
+            return None if r is None else (not r)
+        if isinstance(e, ast.Compare) and len(e.ops) == 1 and isinstance(e.ops[0], (ast.Is, ast.IsNot)) \
+                and isinstance(e.comparators[0], ast.Constant) and e.comparators[0].value is None:
+            nn = nonnull(e.left)
+            if nn is None:
+                return None
+            return (not nn) if isinstance(e.ops[0], ast.Is) else nn
+        return None
+
+    def fold(stmts, module):
+        out = []
+        for st in stmts:
+            for fld in ("body", "orelse", "finalbody"):
+                sub = getattr(st, fld, None)
+                if isinstance(sub, list) and sub and isinstance(sub[0], ast.stmt):
+                    setattr(st, fld, fold(sub, module) or [ast.copy_location(ast.Pass(), st)])
+            if isinstance(st, ast.If):
+                c = const_test(st.test, module)
+                if c is True:
+                    out += st.body
+                    continue
+                if c is False:
+                    out += [s_ for s_ in st.orelse if not isinstance(s_, ast.Pass)]
+                    continue
+            out.append(st)
+        return out
+
+    def fuse(stmts):
+        """x = a; x = g(x)  ->  x = g(a)   (adjacent plain assignments of one name, a without calls that could have effects
+        other than reading)"""
+        out = []
+        for st in stmts:
+            for fld in ("body", "orelse", "finalbody"):
+                sub = getattr(st, fld, None)
+                if isinstance(sub, list) and sub and isinstance(sub[0], ast.stmt):
+                    setattr(st, fld, fuse(sub))
+            prev = out[-1] if out else None
+            if isinstance(st, ast.Assign) and len(st.targets) == 1 and isinstance(st.targets[0], ast.Name) \
+                    and isinstance(prev, ast.Assign) and len(prev.targets) == 1 and isinstance(prev.targets[0], ast.Name) \
+                    and prev.targets[0].id == st.targets[0].id:
+                nm = st.targets[0].id
+                uses = [n for n in ast.walk(st.value) if isinstance(n, ast.Name) and n.id == nm]
+                if len(uses) == 1:
+                    class S(ast.NodeTransformer):
+                        def visit_Name(self, n):
+                            return copy.deepcopy(prev.value) if n.id == nm else n
+                    out[-1] = ast.copy_location(ast.Assign(targets=[st.targets[0]], value=S().visit(copy.deepcopy(st.value))), prev)
+                    continue
+            out.append(st)
+        return out
+
     def expand(stmts, module, d):
         out = []
         for st in stmts:
@@ -409,15 +502,14 @@ def inline_value_calls(p: Program, f: Function, depth: int = 2, keep=()) -> Func
             elif d > 0 and isinstance(st, ast.Return) and isinstance(st.value, ast.Call):
                 call = st.value
             if call is not None:
-                callee, info = helper_of(call, module)
-                if callee is not None:
-                    body, skip = info
+                hmod, info = helper_of(call, module)
+                if hmod is not None:
+                    body, mapping = info
                     counter[0] += 1
                     suffix = f"__inl{counter[0]}"
-                    mapping = dict(zip(callee.params[skip:], call.args))
                     # parameters reassigned in the helper become locals initialised from the argument
                     pre = []
-                    stored = {n.id for s in body for n in ast.walk(s) if isinstance(n, ast.Name) and isinstance(n.ctx, ast.Store)}
+                    stored = {n.id for s_ in body for n in ast.walk(s_) if isinstance(n, ast.Name) and isinstance(n.ctx, ast.Store)}
                     for k in list(mapping):
                         if k in stored:
                             pre.append(ast.Assign(targets=[ast.Name(id=k + suffix, ctx=ast.Store())], value=copy.deepcopy(mapping[k])))
@@ -446,7 +538,8 @@ def inline_value_calls(p: Program, f: Function, depth: int = 2, keep=()) -> Func
                     for m in new:
                         for sub in ast.walk(m):
                             ast.copy_location(sub, st)
-                    out += expand(new, callee.module, d - 1)
+                    new = fold(new, hmod)
+                    out += expand(new, hmod, d - 1)
                     continue
             for fld in ("body", "orelse", "finalbody"):
                 sub = getattr(st, fld, None)
@@ -459,7 +552,8 @@ def inline_value_calls(p: Program, f: Function, depth: int = 2, keep=()) -> Func
         return out
 
     node = copy.deepcopy(f.node)
-    node.body = expand(node.body, f.module, depth)
+    nested = {n.name: n for n in ast.walk(node) if isinstance(n, ast.FunctionDef) and n is not node}
+    node.body = fuse(expand(node.body, f.module, depth))
     ast.fix_missing_locations(node)
     g = copy.copy(f)
     g.node = node
